@@ -383,6 +383,216 @@ fn transform_case(s: &Section, pos: &[X; 3], quat: Quaternion<X>, r3: &A<X, 3>, 
     }
 }
 
+// =====================================================================================================
+// second audit round: special values (tiny / huge / nearly-unit / nearly-affine) in exact arithmetic, and the same
+// builders, twins and helpers instantiated for f32 and f64 with oracles computed EXACTLY from the floats' values
+// =====================================================================================================
+
+/// exact fixed-point integers for float oracles: 768-bit two's complement, unit 2^-400
+const BW: usize = 12;
+const BUNIT: i32 = 400;
+#[derive(Clone, Copy, PartialEq, Eq, Debug)]
+struct Big([u64; BW]);
+impl Big {
+    const ZERO: Big = Big([0; BW]);
+    fn is_neg(&self) -> bool { self.0[BW - 1] >> 63 == 1 }
+    fn neg(self) -> Big { let mut o = [0u64; BW]; let mut c = true; for i in 0..BW { let (v, c2) = (!self.0[i]).overflowing_add(c as u64); o[i] = v; c = c2; } Big(o) }
+    fn add(self, b: Big) -> Big { let mut o = [0u64; BW]; let mut c = 0u128; for i in 0..BW { let t = self.0[i] as u128 + b.0[i] as u128 + c; o[i] = t as u64; c = t >> 64; } Big(o) }
+    fn sub(self, b: Big) -> Big { self.add(b.neg()) }
+    fn abs(self) -> Big { if self.is_neg() { self.neg() } else { self } }
+    /// signed self <= b
+    fn le(&self, b: &Big) -> bool {
+        match (self.is_neg(), b.is_neg()) { (true, false) => true, (false, true) => false, _ => { for i in (0..BW).rev() { if self.0[i] != b.0[i] { return self.0[i] < b.0[i]; } } true } }
+    }
+    /// number of significant bits of a non-negative value
+    fn bits(&self) -> u32 { for i in (0..BW).rev() { if self.0[i] != 0 { return 64 * i as u32 + 64 - self.0[i].leading_zeros(); } } 0 }
+    /// non-negative self times k; None past the top of the window
+    fn mul_u64(self, k: u64) -> Option<Big> { let mut o = [0u64; BW]; let mut c = 0u128; for i in 0..BW { let t = self.0[i] as u128 * k as u128 + c; o[i] = t as u64; c = t >> 64; } if c != 0 || o[BW - 1] >> 62 != 0 { None } else { Some(Big(o)) } }
+    fn shl(self, n: u32) -> Option<Big> {
+        if self.bits() + n > 64 * BW as u32 - 2 { return None; }
+        let (l, b) = ((n / 64) as usize, n % 64); let mut o = [0u64; BW];
+        for i in (l..BW).rev() { o[i] = self.0[i - l] << b; if b > 0 && i > l { o[i] |= self.0[i - l - 1] >> (64 - b); } }
+        Some(Big(o))
+    }
+    /// exact right shift of a non-negative value: None if a set bit would be lost
+    fn shr_exact(self, n: u32) -> Option<Big> {
+        let (l, b) = ((n / 64) as usize, n % 64); if l >= BW { return if self == Big::ZERO { Some(self) } else { None }; }
+        for i in 0..l { if self.0[i] != 0 { return None; } }
+        if b > 0 && self.0[l] & ((1u64 << b) - 1) != 0 { return None; }
+        let mut o = [0u64; BW];
+        for i in 0..BW - l { o[i] = self.0[i + l] >> b; if b > 0 && i + l + 1 < BW { o[i] |= self.0[i + l + 1] << (64 - b); } }
+        Some(Big(o))
+    }
+    fn pow2(e: i32) -> Big { bprod(&[1.0]).unwrap().shl_signed(e) }
+    fn shl_signed(self, e: i32) -> Big { if e >= 0 { self.shl(e as u32).unwrap() } else { self.shr_exact((-e) as u32).unwrap() } }
+}
+/// finite v = (-1)^neg * mant * 2^e
+fn fparts(v: f64) -> (bool, u64, i32) {
+    let b = v.to_bits(); let (neg, ex, fr) = (b >> 63 == 1, ((b >> 52) & 0x7ff) as i32, b & ((1u64 << 52) - 1));
+    if ex == 0 { (neg, fr, -1074) } else { (neg, fr | 1 << 52, ex - 1075) }
+}
+/// the exact product of finite floats (None outside the 2^-400 .. 2^366 window)
+fn bprod(fs: &[f64]) -> Option<Big> {
+    let mut acc = Big::ZERO; acc.0[0] = 1; let (mut e, mut neg) = (0i32, false);
+    for &f in fs { if !f.is_finite() { return None; } let (n, m, ex) = fparts(f); if m == 0 { return Some(Big::ZERO); } let tz = m.trailing_zeros(); acc = acc.mul_u64(m >> tz)?; e += ex + tz as i32; neg ^= n; }
+    let sh = e + BUNIT; let r = if sh >= 0 { acc.shl(sh as u32)? } else { acc.shr_exact((-sh) as u32)? };
+    Some(if neg { r.neg() } else { r })
+}
+/// magnitude policy of the float oracles: every non-zero exact term and the sum of their absolute values must lie inside
+/// [2^-115, 2^110] for f32 (p = 24) and [2^-300, 2^300] for f64 (p = 53), so no product underflows and no partial sum overflows
+fn fwindow(p: u32) -> (Big, Big) { if p == 24 { (Big::pow2(-115), Big::pow2(110)) } else { (Big::pow2(-300), Big::pow2(300)) } }
+/// Some(true) iff |got - sum(terms)| <= gamma_n * sum|terms| with gamma_n = n u / (1 - n u), u = 2^-p: the forward error bound of
+/// ANY evaluation of the sum in which every term passes through at most n roundings (fused or not, any order); None = outside the policy window
+fn terms_ok(terms: impl Iterator<Item = Option<Big>>, got: f64, n: u64, p: u32, win: &(Big, Big)) -> Option<bool> {
+    let (mut sum, mut sabs) = (Big::ZERO, Big::ZERO);
+    for t in terms { let t = t?; let a = t.abs(); if a != Big::ZERO && !win.0.le(&a) { return None; } sum = sum.add(t); sabs = sabs.add(a); }
+    if !sabs.le(&win.1) { return None; }
+    if !got.is_finite() { return Some(false); }
+    let g = match bprod(&[got]) { Some(g) => g, None => return if got.abs() > 1.0 { Some(false) } else { None } };
+    let d = g.sub(sum).abs();
+    match (d.mul_u64((1u64 << p) - n), sabs.mul_u64(n)) { (Some(l), Some(r)) => Some(l.le(&r)), (None, Some(_)) => Some(false), _ => None }
+}
+fn dot_ok(a: &[f64], b: &[f64], got: f64, p: u32, win: &(Big, Big)) -> Option<bool> { terms_ok((0..a.len()).map(|k| bprod(&[a[k], b[k]])), got, a.len() as u64, p, win) }
+
+trait Fl: Copy + 'static { const P: u32; const NAME: &'static str; fn wide(self) -> f64; fn narrow(v: f64) -> Self; }
+impl Fl for f32 { const P: u32 = 24; const NAME: &'static str = "f32"; fn wide(self) -> f64 { self as f64 } fn narrow(v: f64) -> f32 { v as f32 } }
+impl Fl for f64 { const P: u32 = 53; const NAME: &'static str = "f64"; fn wide(self) -> f64 { self } fn narrow(v: f64) -> f64 { v } }
+fn widen<F: Fl, const N: usize>(a: &A<F, N>) -> A<f64, N> { let mut o = [[0.0; N]; N]; for i in 0..N { for j in 0..N { o[i][j] = a[i][j].wide(); } } o }
+fn narrow<F: Fl, const N: usize>(a: &A<f64, N>) -> A<F, N> { let mut o = [[F::narrow(0.0); N]; N]; for i in 0..N { for j in 0..N { o[i][j] = F::narrow(a[i][j]); } } o }
+fn bits_eq<const N: usize>(a: &A<f64, N>, b: &A<f64, N>) -> bool { (0..N).all(|i| (0..N).all(|j| a[i][j].to_bits() == b[i][j].to_bits())) }
+
+/// one builder call on floats; parameters are stored as f64 and are exactly representable in the element type under test
+#[derive(Clone, Copy, Debug, PartialEq)]
+enum FOp { T2([f64; 2]), T3([f64; 3]), S3([f64; 3]), S2([f64; 2]), ShX(f64), ShY(f64), RX(f64), RY(f64), RZ(f64), R3(f64) }
+fn fop_fn(op: FOp) -> &'static str {
+    match op { FOp::T2(_) => "translated_2d", FOp::T3(_) => "translated_3d", FOp::S3(_) => "scaled_3d", FOp::S2(_) => "scaled_2d", FOp::ShX(_) => "sheared_x", FOp::ShY(_) => "sheared_y",
+        FOp::RX(_) => "rotated_x", FOp::RY(_) => "rotated_y", FOp::RZ(_) => "rotated_z", FOp::R3(_) => "rotated_3d" }
+}
+fn fop_params(op: FOp) -> Vec<f64> { match op { FOp::T2(v) | FOp::S2(v) => v.to_vec(), FOp::T3(v) | FOp::S3(v) => v.to_vec(), FOp::ShX(k) | FOp::ShY(k) | FOp::RX(k) | FOp::RY(k) | FOp::RZ(k) | FOp::R3(k) => vec![k] } }
+/// textbook matrix of a translation / scaling / shear call (None for rotations: there the decoded REAL constructor is the reference factor)
+fn fop_ref<const N: usize>(op: FOp) -> Option<A<f64, N>> {
+    let mut m = [[0.0; N]; N]; for i in 0..N { m[i][i] = 1.0; }
+    match op {
+        FOp::T2(v) => { m[0][N - 1] = v[0]; m[1][N - 1] = v[1]; }
+        FOp::T3(v) => { for i in 0..3 { m[i][N - 1] = v[i]; } }
+        FOp::S3(v) => { for i in 0..3 { m[i][i] = v[i]; } }
+        FOp::S2(v) => { for i in 0..2 { m[i][i] = v[i]; } }
+        FOp::ShX(k) => m[0][1] = k, FOp::ShY(k) => m[1][0] = k,
+        _ => return None,
+    }
+    Some(m)
+}
+/// (returning form, in-place twin on a copy of the same prior state, REAL constructor * REAL prior state, the REAL constructor)
+macro_rules! freal4 { ($F:ty, $L:ident) => { |m: $L::Mat4<$F>, op: FOp| { type M = $L::Mat4<$F>; let f = |v: f64| v as $F;
+    match op {
+        FOp::T2(v) => { let v = Vec2 { x: f(v[0]), y: f(v[1]) }; let mut t = m; t.translate_2d(v); let c = M::translation_2d(v); (m.translated_2d(v), t, c * m, c) }
+        FOp::T3(v) => { let v = Vec3 { x: f(v[0]), y: f(v[1]), z: f(v[2]) }; let mut t = m; t.translate_3d(v); let c = M::translation_3d(v); (m.translated_3d(v), t, c * m, c) }
+        FOp::S3(v) => { let v = Vec3 { x: f(v[0]), y: f(v[1]), z: f(v[2]) }; let mut t = m; t.scale_3d(v); let c = M::scaling_3d(v); (m.scaled_3d(v), t, c * m, c) }
+        FOp::RX(a) => { let a = f(a); let mut t = m; t.rotate_x(a); let c = M::rotation_x(a); (m.rotated_x(a), t, c * m, c) }
+        FOp::RY(a) => { let a = f(a); let mut t = m; t.rotate_y(a); let c = M::rotation_y(a); (m.rotated_y(a), t, c * m, c) }
+        FOp::RZ(a) => { let a = f(a); let mut t = m; t.rotate_z(a); let c = M::rotation_z(a); (m.rotated_z(a), t, c * m, c) }
+        FOp::R3(a) => { let (a, ax) = (f(a), Vec3 { x: f(1.0), y: f(2.0), z: f(2.0) }); let mut t = m; t.rotate_3d(a, ax); let c = M::rotation_3d(a, ax); (m.rotated_3d(a, ax), t, c * m, c) }
+        _ => unreachable!(),
+    } } } }
+macro_rules! freal3 { ($F:ty, $L:ident) => { |m: $L::Mat3<$F>, op: FOp| { type M = $L::Mat3<$F>; let f = |v: f64| v as $F;
+    match op {
+        FOp::T2(v) => { let v = Vec2 { x: f(v[0]), y: f(v[1]) }; let mut t = m; t.translate_2d(v); let c = M::translation_2d(v); (m.translated_2d(v), t, c * m, c) }
+        FOp::S3(v) => { let v = Vec3 { x: f(v[0]), y: f(v[1]), z: f(v[2]) }; let mut t = m; t.scale_3d(v); let c = M::scaling_3d(v); (m.scaled_3d(v), t, c * m, c) }
+        FOp::RX(a) => { let a = f(a); let mut t = m; t.rotate_x(a); let c = M::rotation_x(a); (m.rotated_x(a), t, c * m, c) }
+        FOp::RY(a) => { let a = f(a); let mut t = m; t.rotate_y(a); let c = M::rotation_y(a); (m.rotated_y(a), t, c * m, c) }
+        FOp::RZ(a) => { let a = f(a); let mut t = m; t.rotate_z(a); let c = M::rotation_z(a); (m.rotated_z(a), t, c * m, c) }
+        FOp::R3(a) => { let (a, ax) = (f(a), Vec3 { x: f(1.0), y: f(2.0), z: f(2.0) }); let mut t = m; t.rotate_3d(a, ax); let c = M::rotation_3d(a, ax); (m.rotated_3d(a, ax), t, c * m, c) }
+        _ => unreachable!(),
+    } } } }
+macro_rules! freal2 { ($F:ty, $L:ident) => { |m: $L::Mat2<$F>, op: FOp| { type M = $L::Mat2<$F>; let f = |v: f64| v as $F;
+    match op {
+        FOp::S2(v) => { let v = Vec2 { x: f(v[0]), y: f(v[1]) }; let mut t = m; t.scale_2d(v); let c = M::scaling_2d(v); (m.scaled_2d(v), t, c * m, c) }
+        FOp::ShX(k) => { let k = f(k); let mut t = m; t.shear_x(k); let c = M::shearing_x(k); (m.sheared_x(k), t, c * m, c) }
+        FOp::ShY(k) => { let k = f(k); let mut t = m; t.shear_y(k); let c = M::shearing_y(k); (m.sheared_y(k), t, c * m, c) }
+        FOp::RZ(a) => { let a = f(a); let mut t = m; t.rotate_z(a); let c = M::rotation_z(a); (m.rotated_z(a), t, c * m, c) }
+        _ => unreachable!(),
+    } } } }
+type FHelperOut<const N: usize> = Vec<(&'static str, &'static str, Vec<f64>, [f64; N])>;
+macro_rules! fhelper4 { ($F:ty, $L:ident) => { |m: &$L::Mat4<$F>, p: &[f64; 4]| -> FHelperOut<4> {
+    let m = *m; let f = |v: f64| v as $F; let w = |v: &[$F]| v.iter().map(|x| *x as f64).collect::<Vec<f64>>();
+    let (a3, a4, a2) = (Vec3 { x: f(p[0]), y: f(p[1]), z: f(p[2]) }, Vec4 { x: f(p[0]), y: f(p[1]), z: f(p[2]), w: f(p[3]) }, Vec2 { x: f(p[0]), y: f(p[1]) });
+    let (pt, dr) = ([p[0], p[1], p[2], 1.0], [p[0], p[1], p[2], 0.0]);
+    vec![("mul_point<Vec3>", W1, w(&dv3(&m.mul_point(a3))), pt), ("mul_point<Vec4>", W1, w(&dv4(&m.mul_point(a4))), pt), ("mul_point<Vec2>", W1, w(&dv2(&m.mul_point(a2))), [p[0], p[1], 0.0, 1.0]),
+         ("mul_direction<Vec3>", W0, w(&dv3(&m.mul_direction(a3))), dr), ("mul_direction<Vec4>", W0, w(&dv4(&m.mul_direction(a4))), dr), ("mul_direction<Vec2>", W0, w(&dv2(&m.mul_direction(a2))), [p[0], p[1], 0.0, 0.0])]
+} } }
+macro_rules! fhelper3 { ($F:ty, $L:ident) => { |m: &$L::Mat3<$F>, p: &[f64; 3]| -> FHelperOut<3> {
+    let m = *m; let f = |v: f64| v as $F; let w = |v: &[$F]| v.iter().map(|x| *x as f64).collect::<Vec<f64>>();
+    let (a2, a3) = (Vec2 { x: f(p[0]), y: f(p[1]) }, Vec3 { x: f(p[0]), y: f(p[1]), z: f(p[2]) });
+    let (pt, dr) = ([p[0], p[1], 1.0], [p[0], p[1], 0.0]);
+    vec![("mul_point_2d<Vec2>", W1, w(&dv2(&m.mul_point_2d(a2))), pt), ("mul_point_2d<Vec3>", W1, w(&dv3(&m.mul_point_2d(a3))), pt),
+         ("mul_direction_2d<Vec2>", W0, w(&dv2(&m.mul_direction_2d(a2))), dr), ("mul_direction_2d<Vec3>", W0, w(&dv3(&m.mul_direction_2d(a3))), dr),
+         ("mul<Vec3>", MV, w(&dv3(&(m * a3))), *p)]
+} } }
+macro_rules! fhelper2 { ($F:ty, $L:ident) => { |m: &$L::Mat2<$F>, p: &[f64; 2]| -> FHelperOut<2> {
+    let w = |v: &[$F]| v.iter().map(|x| *x as f64).collect::<Vec<f64>>();
+    vec![("mul<Vec2>", MV, w(&dv2(&(*m * Vec2 { x: p[0] as $F, y: p[1] as $F }))), *p)]
+} } }
+const FBOUND: &str = "chained-builder-is-not-premultiplication-by-the-constructor (beyond the forward error bound)";
+struct FGen<'a, M, const N: usize> {
+    ty: String, fname: &'static str, p: u32, ops: &'a [FOp], probes: &'a [[f64; N]], start_name: &'static str, start: A<f64, N>, win: (Big, Big),
+    real: &'a dyn Fn(M, FOp) -> (M, M, M, M), helper: &'a dyn Fn(&M, &[f64; N]) -> FHelperOut<N>, dec: &'a dyn Fn(&M) -> A<f64, N>,
+}
+/// float twin of gen_dfs: cnt = [entries checked against the exact oracle, entries outside the magnitude policy, transitions]
+fn fgen_dfs<const N: usize, M: Copy>(s: &Section, g: &FGen<M, N>, maxlen: usize, state: M, steps: &mut Vec<FOp>, cnt: &mut [u64; 3]) {
+    let a = (g.dec)(&state);
+    let wgt = 1000 * steps.len() as u64;
+    let inp = |steps: &Vec<FOp>| json!({"start": g.start_name, "start_matrix": jd(&g.start), "calls": jd(steps)});
+    for p in g.probes {
+        match catch(|| (g.helper)(&state, p)) {
+            Ok(list) => for (name, class, got, hom) in list {
+                for i in 0..got.len() {
+                    match dot_ok(&a[i], &hom, got[i], g.p, &g.win) {
+                        None => cnt[1] += 1, Some(true) => cnt[0] += 1,
+                        Some(false) => { cnt[0] += 1; s.violation_w(&format!("{}::{}<{}>", g.ty, name, g.fname), class, json!({"matrix": jd(&a), "reached_by": inp(steps), "operand": jd(p), "lane": i, "got": jd(&got), "homogeneous_input": jd(&hom)}), wgt); break; }
+                    }
+                }
+            },
+            Err(e) => s.violation_w(&format!("{} helpers<{}>", g.ty, g.fname), "panic", json!({"reached_by": inp(steps), "operand": jd(p), "panic": jd(&e)}), wgt),
+        }
+    }
+    if steps.len() >= maxlen { return; }
+    for (oi, &op) in g.ops.iter().enumerate() {
+        let site = format!("{}::{}<{}>", g.ty, fop_fn(op), g.fname);
+        let w = wgt + oi as u64;
+        cnt[2] += 1;
+        match catch(|| (g.real)(state, op)) {
+            Ok((ret, twin, ctm, ctor)) => {
+                let (r, t, cmr, c) = ((g.dec)(&ret), (g.dec)(&twin), (g.dec)(&ctm), (g.dec)(&ctor));
+                steps.push(op);
+                let mut ok = true;
+                if !bits_eq(&t, &r) { ok = false; s.violation_w(&site, "in-place-form-differs-from-returning-form", json!({"input": inp(steps), "returning": jd(&r), "in_place": jd(&t)}), w); }
+                if !bits_eq(&cmr, &r) { ok = false; s.violation_w(&site, "returning-form-differs-from-real-constructor-times-self", json!({"input": inp(steps), "returning": jd(&r), "constructor*self": jd(&cmr)}), w); }
+                let cref = match fop_ref::<N>(op) {
+                    Some(tb) => { if !bits_eq(&c, &tb) { ok = false; s.violation_w(&format!("{}::{}<{}> constructor", g.ty, fop_fn(op), g.fname), "constructor-does-not-place-the-parameter-bits", json!({"op": jd(&op), "got": jd(&c), "want": jd(&tb)}), w); } tb }
+                    None => c,
+                };
+                'e: for i in 0..N { for j in 0..N {
+                    let col: [f64; N] = std::array::from_fn(|k| a[k][j]);
+                    match dot_ok(&cref[i], &col, r[i][j], g.p, &g.win) {
+                        None => cnt[1] += 1, Some(true) => cnt[0] += 1,
+                        Some(false) => { cnt[0] += 1; ok = false; s.violation_w(&site, FBOUND, json!({"input": inp(steps), "prior": jd(&a), "constructor": jd(&cref), "entry": [i, j], "got": r[i][j], "returning": jd(&r)}), w); break 'e; }
+                    }
+                } }
+                if ok { fgen_dfs(s, g, maxlen, ret, steps, cnt); }
+                steps.pop();
+            }
+            Err(e) => s.violation_w(&site, "panic", json!({"input": inp(steps), "op": jd(&op), "panic": jd(&e)}), w),
+        }
+    }
+}
+/// terms (products of floats) of the entries of the rotation p -> p + 2w(u x p) + 2u x (u x p), u = (x,y,z), of a unit quaternion
+fn quat_terms(q: &[f64; 4]) -> [[Vec<Vec<f64>>; 3]; 3] {
+    let (x, y, z, w) = (q[0], q[1], q[2], q[3]);
+    [[vec![vec![1.0], vec![-2.0, y, y], vec![-2.0, z, z]], vec![vec![2.0, x, y], vec![-2.0, z, w]], vec![vec![2.0, x, z], vec![2.0, y, w]]],
+     [vec![vec![2.0, x, y], vec![2.0, z, w]], vec![vec![1.0], vec![-2.0, x, x], vec![-2.0, z, z]], vec![vec![2.0, y, z], vec![-2.0, x, w]]],
+     [vec![vec![2.0, x, z], vec![-2.0, y, w]], vec![vec![2.0, y, z], vec![2.0, x, w]], vec![vec![1.0], vec![-2.0, x, x], vec![-2.0, y, y]]]]
+}
+
 fn main() {
     let rep = Report::start("C07", "model_checking");
     let extra = if rep.thorough() { 2 } else { 1 };
@@ -788,6 +998,210 @@ fn main() {
         let d = Transform::<f32, f32, f32>::default();
         if rm::Mat4::<f32>::from(d).decode() != ident::<f32, 4>() || cm::Mat4::<f32>::from(d).decode() != ident::<f32, 4>() { s.violation("Mat4::<f32>::from(Transform::default())", "not-the-identity-map", json!({})); }
         s.sample(json!({"position": [0, 0, 0], "orientation": "(0,0,0,-1) (w = -1, the identity rotation)", "scale": [2, 0, -1], "want": "p -> (2 p.x, 0, -p.z)"}));
+    });
+
+    // ------------------------------------------------------------------------------------------------
+    // second audit round
+    // ------------------------------------------------------------------------------------------------
+    rep.section("special values in exact arithmetic: tiny / huge / nearly-unit / equal-lane parameters on identity, nearly-affine, nearly-identity and rescaled prior states",
+        "X::epsilon() is 2^-52, so every parameter below is chosen on the far side of any epsilon / approximate-equality guard a builder, twin or helper could contain. Prior states: Mat4 {identity, dense with last row (2^-54, 0, -3*2^-54, 1) [nearly affine], dense with last row (0,0,0,1+2^-54), identity + 2^-54 in every entry, dense / 2^12, dense * 2^12}, Mat3 / Mat2 likewise; calls: translations {tiny (all lanes < 2^-51), huge (2^30), single non-zero lane, equal lanes}, scalings {uniform 2 / -1, (1+2^-54, 1, 1-2^-54), (2^-54, 2^30, -1), two equal lanes}, shears {1, -1, 2^-54, -2^30}, rotations; every single call from every state, both layouts, through the same transition function as the general-matrix section (textbook constructor * reference state, REAL constructor * REAL state, in-place twin), and the point/direction helpers for all operand types on every reached matrix with probes {tiny, huge, unit, ordinary} (junk extra lane); Transform -> Mat4 with tiny / huge positions and tiny / nearly-unit / huge scales on 3 axes x 12 half-angles; non-trivial: all", true, false, |s| {
+        s.require_classes(&["identity-start", "nearly-affine-start", "nearly-identity-start", "rescaled-start", "tiny-parameter", "huge-parameter", "nearly-unit-scale", "uniform-scale", "single-lane-parameter", "unit-shear", "transform-tiny-position", "transform-tiny-scale", "transform-nearly-unit-scale"]);
+        let i = |a: i128| qi(a);
+        let t = q(1, 1i128 << 54); let hg = qi(1i128 << 30); let one = qi(1);
+        let ops4 = [Op::T3([t, -(t * i(3)), t * i(5)]), Op::T3([hg * i(3), -hg, hg]), Op::T3([i(0), i(0), i(7)]), Op::T3([i(5), i(0), i(0)]), Op::T3([i(4), i(4), i(4)]),
+            Op::T2([t, -(t * i(3))]), Op::T2([hg, -hg]), Op::T2([i(0), i(5)]), Op::T2([i(6), i(6)]),
+            Op::S3([i(2), i(2), i(2)]), Op::S3([i(-1), i(-1), i(-1)]), Op::S3([one + t, one, one - t]), Op::S3([t, hg, i(-1)]), Op::S3([i(3), i(3), i(1)]), Op::S3([t, t, t]),
+            Op::RX(0, 1), Op::RY(1, 2), Op::RZ(0, -3), Op::R3(1, 1)];
+        let ops3 = [Op::T2([t, -(t * i(3))]), Op::T2([hg, -hg]), Op::T2([i(0), i(5)]), Op::T2([i(6), i(6)]),
+            Op::S3([i(2), i(2), i(2)]), Op::S3([i(-1), i(-1), i(-1)]), Op::S3([one + t, one, one - t]), Op::S3([t, hg, i(-1)]), Op::S3([i(3), i(3), i(1)]), Op::S3([t, t, t]),
+            Op::RX(0, 1), Op::RY(1, 2), Op::RZ(0, -3), Op::R3(1, 1)];
+        let ops2 = [Op::S2([i(2), i(2)]), Op::S2([i(-1), i(-1)]), Op::S2([one + t, one - t]), Op::S2([t, hg]), Op::ShX(i(1)), Op::ShX(i(-1)), Op::ShX(t), Op::ShX(-hg), Op::ShY(i(1)), Op::ShY(i(-1)), Op::ShY(-t), Op::ShY(hg), Op::RZ(0, 1), Op::RZ(1, -2)];
+        let dense4: A<X, 4> = [[i(2), i(-1), i(3), i(5)], [i(0), i(4), i(1), i(-2)], [i(7), i(1), i(-3), q(1, 2)], [i(1), i(-2), i(3), i(4)]];
+        let dense3: A<X, 3> = [[i(2), i(-1), i(3)], [i(0), i(4), i(1)], [i(7), q(1, 2), i(-3)]];
+        let dense2: A<X, 2> = [[i(2), i(-1)], [i(3), i(5)]];
+        fn scaled<const N: usize>(m: &A<X, N>, k: X) -> A<X, N> { let mut o = *m; for r in o.iter_mut() { for e in r.iter_mut() { *e = *e * k; } } o }
+        fn near_ident<const N: usize>(e: X) -> A<X, N> { let mut o = [[e; N]; N]; for d in 0..N { o[d][d] = qi(1) + e; } o }
+        let (sm, lg) = (q(1, 1 << 12), qi(1 << 12));
+        let mut na4 = dense4; na4[3] = [t, i(0), -(t * i(3)), one];
+        let mut nb4 = dense4; nb4[3] = [i(0), i(0), i(0), one + t];
+        let mut na3 = dense3; na3[2] = [t, -(t * i(3)), one];
+        let mut nb3 = dense3; nb3[2] = [i(0), i(0), one + t];
+        let na2: A<X, 2> = [[one, t], [i(0), one + t]];
+        let starts4 = [("identity-start", ident::<X, 4>()), ("nearly-affine-start", na4), ("nearly-affine-start", nb4), ("nearly-identity-start", near_ident::<4>(t)), ("rescaled-start", scaled(&dense4, sm)), ("rescaled-start", scaled(&dense4, lg))];
+        let starts3 = [("identity-start", ident::<X, 3>()), ("nearly-affine-start", na3), ("nearly-affine-start", nb3), ("nearly-identity-start", near_ident::<3>(t)), ("rescaled-start", scaled(&dense3, sm)), ("rescaled-start", scaled(&dense3, lg))];
+        let starts2 = [("identity-start", ident::<X, 2>()), ("nearly-affine-start", na2), ("nearly-identity-start", near_ident::<2>(t)), ("rescaled-start", scaled(&dense2, sm)), ("rescaled-start", scaled(&dense2, lg))];
+        let probes4 = [[t, -(t * i(3)), t * i(5), i(7)], [hg, hg * i(3), -hg, i(0)], [i(1), i(0), i(0), i(1)], [i(0), i(0), i(1), i(0)], [i(2), i(-3), i(5), i(-1)], [i(0), i(0), i(0), i(1)]];
+        let probes3 = [[t, -(t * i(3)), i(7)], [hg, hg * i(3), i(0)], [i(1), i(0), i(1)], [i(0), i(1), i(0)], [i(2), i(-3), i(5)], [i(0), i(0), i(1)]];
+        let probes2 = [[t, -(t * i(3))], [hg, hg * i(3)], [i(1), i(0)], [i(0), i(1)], [i(2), i(-3)]];
+        let small = |x: &X| *x != i(0) && *x < q(1, 1i128 << 52) && -*x < q(1, 1i128 << 52);
+        for op in ops4.iter().chain(&ops3).chain(&ops2) {
+            let ps: Vec<X> = match *op { Op::T2(v) | Op::S2(v) => v.to_vec(), Op::T3(v) | Op::S3(v) => v.to_vec(), Op::ShX(k) | Op::ShY(k) => vec![k], _ => vec![] };
+            if ps.iter().any(small) { s.class("tiny-parameter"); }
+            if ps.iter().any(|x| *x >= hg || -*x >= hg) { s.class("huge-parameter"); }
+            if matches!(op, Op::S3(_) | Op::S2(_)) && ps.iter().any(|x| *x != one && small(&(*x - one))) { s.class("nearly-unit-scale"); }
+            if matches!(op, Op::S3(_) | Op::S2(_)) && ps.iter().all(|x| *x == ps[0]) { s.class("uniform-scale"); }
+            if matches!(op, Op::T3(_) | Op::T2(_)) && ps.iter().filter(|x| **x != i(0)).count() == 1 { s.class("single-lane-parameter"); }
+            if matches!(op, Op::ShX(_) | Op::ShY(_)) && (ps[0] == one || ps[0] == -one) { s.class("unit-shear"); }
+        }
+        let mut n = 0u64;
+        // (a) the helpers with ALL probes (tiny and huge included) on the special states themselves, (b) every single call from them, the helpers
+        // on the reached matrices with the ordinary probes (three tiny factors would leave the i128 rationals of the exact element type)
+        macro_rules! run { ($N:expr, $Mat:ident, $starts:expr, $ops:expr, $probes:expr, $refn:ident, $real:ident, $helper:ident, $name:expr) => {{
+            let ordinary: Vec<[X; $N]> = $probes[2..].to_vec();
+            for (k, (cls, st)) in $starts.iter().enumerate() {
+                s.class(cls);
+                for (len, pr) in [(0usize, &$probes[..]), (1usize, &ordinary[..])] {
+                    { let g = Gen::<rm::$Mat<X>, $N> { ty: format!("{}<row>", $name), ops: &$ops, refn: $refn, real: &|m, op| $real!(m, op, rm), helper: &$helper!(rm), probes: pr, start: *st, start_weight: k as u64 };
+                      gen_dfs(s, &g, len, <rm::$Mat<X> as MatIO<X, $N>>::build(st), st, &mut Vec::new(), &mut n); }
+                    { let g = Gen::<cm::$Mat<X>, $N> { ty: format!("{}<col>", $name), ops: &$ops, refn: $refn, real: &|m, op| $real!(m, op, cm), helper: &$helper!(cm), probes: pr, start: *st, start_weight: k as u64 };
+                      gen_dfs(s, &g, len, <cm::$Mat<X> as MatIO<X, $N>>::build(st), st, &mut Vec::new(), &mut n); }
+                }
+            }
+        }} }
+        run!(4, Mat4, starts4, ops4, probes4, ref4, real_op4, helper4, "Mat4");
+        run!(3, Mat3, starts3, ops3, probes3, ref3, real_op3, helper3, "Mat3");
+        run!(2, Mat2, starts2, ops2, probes2, ref2, real_op2, helper2, "Mat2");
+        s.evals(n, n);
+        s.meta("transitions_and_helper_evaluations", json!(n));
+        // Transform with tiny / huge positions and tiny / nearly-unit / huge scales
+        let all = unit_axes(); let axes = [all[0], all[14], all[55]];
+        let circ = circle_points();
+        let positions = [[i(0), i(0), i(0)], [t, -(t * i(3)), t * i(5)], [hg, -hg, hg * i(3)]];
+        let scales = [[t, t, t], [one + t, one + t, one + t], [hg, hg, hg], [one + t, one, one - t], [t, one, hg]];
+        let probes = [[i(1), i(0), i(0)], [i(0), i(1), i(0)], [i(0), i(0), i(1)], [i(1), i(2), i(3)], [i(0), i(0), i(0)], [q(-1, 2), i(7), i(-4)]];
+        for (ai, ax) in axes.iter().enumerate() { for (ci, &(ch, sh)) in circ.iter().enumerate() {
+            let (c, sn) = (ch * ch - sh * sh, qi(2) * ch * sh);
+            let r3 = rodrigues(ax, c, sn);
+            let quat = Quaternion { x: ax[0] * sh, y: ax[1] * sh, z: ax[2] * sh, w: ch };
+            for (pi, pos) in positions.iter().enumerate() { for (si, sc) in scales.iter().enumerate() {
+                if pi == 1 { s.class("transform-tiny-position"); }
+                if si == 0 { s.class("transform-tiny-scale"); }
+                if si == 1 || si == 3 { s.class("transform-nearly-unit-scale"); }
+                transform_case(s, pos, quat, &r3, sc, &probes, (ci as u64) * 10 + (pi as u64) * 5 + 1000 * (ai as u64).min(1), c != qi(1));
+            } }
+        } }
+        s.sample(json!({"start": "Mat4 dense with last row (2^-54, 0, -3*2^-54, 1)", "call": "translated_3d((3*2^30, -2^30, 2^30))", "law": "row i gains v_i * (last row): entry [0][0] changes by 3*2^-24 - an 'affine enough' shortcut that only touches the last column is visible"}));
+        s.sample(json!({"start": "identity", "call": "translate_3d((2^-54, -3*2^-54, 5*2^-54))", "law": "the last column becomes exactly the tiny vector (no 'negligible translation' early return in the twin)"}));
+    });
+
+    rep.section("floats: builders, in-place twins, constructors and point/direction helpers on f32 and f64 against oracles computed exactly from the floats",
+        "element types f32 and f64 x both layouts x Mat4 / Mat3 / Mat2. Prior states: identity, dense projective, dense * 2^-20, dense * 2^30, nearly affine (last row (2^-30, 0, -2^-35, 1) and (0,..,0, 1+8u)), affine with a 2^40 translation column, singular. Calls: translations {0, ordinary, tiny 2^-60, huge 2^40, mixed tiny/1/huge, single lane}, scalings {1, uniform 2 / -1, nearly unit (1+8u, 1, 1-8u), (2^-60, 2^40, -1), zero lanes, all zero, ordinary}, shears {0, 1, -1, 2^-60, 2^40, 1/2, -3}, rotations about x/y/z by {0.7, 2^-60, -2.5, 0, 7.5 (more than a full turn), 2^40} and about (1,2,2) by {1.1, 2^-60}; every call from every state, every 2-call sequence from the identity and the dense state (thorough: every 2-call sequence from every state). After every call: in-place twin == returning form and returning form == REAL constructor * REAL prior state bit for bit (the statement read literally); the REAL translation/scaling/shear constructor holds exactly 0 / 1 / the parameter bits; every entry of the returning form lies within gamma_N * sum|c_ik m_kj| of the EXACT value sum c_ik m_kj (c = textbook constructor of the parameters, for rotations the decoded real constructor; m = the decoded real prior state; exact 768-bit fixed point; gamma_N = N u/(1-N u), the forward bound of any evaluation order, fused or not). On every reached matrix: mul_point / mul_direction (Vec3, Vec4 with junk w, Vec2), mul_point_2d / mul_direction_2d (Vec2, Vec3 with junk z), M*v with probes {ordinary, unit, tiny 2^-30, huge 2^20, mixed}: each lane within gamma_N * sum|m_ik h_k| of the exact sum m_ik h_k, h = (p,1) / (p,0) - for directions the translation column contributes 0 to the bound, so nothing of it may leak. Entries whose exact terms leave the magnitude policy window are counted, not asserted; non-trivial: all", true, false, |s| {
+        s.require_classes(&["f32", "f64", "tiny-parameter", "huge-parameter", "nearly-unit-scale", "tiny-angle", "zero-angle", "angle-beyond-a-full-turn", "nearly-affine-start", "huge-translation-start", "identity-start", "call-sequences"]);
+        let (ty, hg) = (2f64.powi(-60), 2f64.powi(40));
+        let cnt_tot = std::sync::Mutex::new([0u64; 3]);
+        macro_rules! runf { ($F:ty) => {{
+            let p = <$F as Fl>::P; s.class(<$F as Fl>::NAME);
+            let e8 = 2f64.powi(3 - p as i32); let (n1, n1m) = (1.0 + e8, 1.0 - e8);
+            let angles = [0.7, ty, -2.5, 0.0, 7.5, hg];
+            let mut ops4 = vec![FOp::T3([0.0, 0.0, 0.0]), FOp::T3([1.0, 2.0, 3.0]), FOp::T3([ty, -3.0 * ty, 5.0 * ty]), FOp::T3([3.0 * hg, -hg, 2.0 * hg]), FOp::T3([ty, 1.0, hg]), FOp::T3([0.0, 0.0, 7.0]), FOp::T3([-2.5, 0.375, 0.0]),
+                FOp::T2([3.0, -1.0]), FOp::T2([ty, -ty]), FOp::T2([hg, 3.0 * hg]), FOp::T2([0.0, 5.0])];
+            let s3 = [FOp::S3([1.0, 1.0, 1.0]), FOp::S3([2.0, 2.0, 2.0]), FOp::S3([-1.0, -1.0, -1.0]), FOp::S3([n1, 1.0, n1m]), FOp::S3([ty, hg, -1.0]), FOp::S3([0.0, 1.0, -1.0]), FOp::S3([0.0, 0.0, 0.0]), FOp::S3([3.0, 0.5, -0.25])];
+            ops4.extend(s3);
+            let mut ops3 = vec![FOp::T2([0.0, 0.0]), FOp::T2([3.0, -1.0]), FOp::T2([ty, -ty]), FOp::T2([hg, 3.0 * hg]), FOp::T2([0.0, 5.0]), FOp::T2([ty, hg])];
+            ops3.extend(s3);
+            for a in angles { ops4.extend([FOp::RX(a), FOp::RY(a), FOp::RZ(a)]); ops3.extend([FOp::RX(a), FOp::RY(a), FOp::RZ(a)]); }
+            for a in [1.1, ty] { ops4.push(FOp::R3(a)); ops3.push(FOp::R3(a)); }
+            let mut ops2 = vec![FOp::S2([1.0, 1.0]), FOp::S2([2.0, 2.0]), FOp::S2([-1.0, -1.0]), FOp::S2([n1, n1m]), FOp::S2([ty, hg]), FOp::S2([0.0, -2.0]), FOp::S2([3.0, 0.5])];
+            for k in [0.0, 1.0, -1.0, ty, hg, 0.5, -3.0] { ops2.push(FOp::ShX(k)); ops2.push(FOp::ShY(-k)); }
+            for a in angles { ops2.push(FOp::RZ(a)); }
+            for op in ops4.iter().chain(&ops3).chain(&ops2) {
+                let ps = fop_params(*op);
+                if fop_ref::<4>(*op).is_some() && ps.iter().any(|v| (*v as $F) as f64 != *v) { s.rep.machinery_error(format!("{:?} is not representable in {}", op, <$F as Fl>::NAME)); }
+                let rot = matches!(op, FOp::RX(_) | FOp::RY(_) | FOp::RZ(_) | FOp::R3(_));
+                if rot { if ps[0] == 0.0 { s.class("zero-angle"); } else if ps[0].abs() < 1e-15 { s.class("tiny-angle"); } else if ps[0].abs() > 6.3 { s.class("angle-beyond-a-full-turn"); } }
+                else { if ps.iter().any(|v| *v != 0.0 && v.abs() < 1e-15) { s.class("tiny-parameter"); } if ps.iter().any(|v| v.abs() > 1e10) { s.class("huge-parameter"); }
+                    if matches!(op, FOp::S3(_) | FOp::S2(_)) && ps.iter().any(|v| *v != 1.0 && (*v - 1.0).abs() < 1e-5) { s.class("nearly-unit-scale"); } }
+            }
+            let dense4: A<f64, 4> = [[2.0, -1.0, 3.0, 5.0], [0.0, 4.0, 1.0, -2.0], [7.0, 1.0, -3.0, 0.5], [1.0, -2.0, 3.0, 4.0]];
+            let sing4: A<f64, 4> = [[1.0, 2.0, 3.0, 4.0], [0.0, 1.0, -1.0, 2.0], [1.0, 3.0, 2.0, 6.0], [3.0, 0.0, -1.0, 2.0]];
+            let dense3: A<f64, 3> = [[2.0, -1.0, 3.0], [0.0, 4.0, 1.0], [7.0, 0.5, -3.0]];
+            let sing3: A<f64, 3> = [[1.0, 2.0, 3.0], [0.0, 1.0, -1.0], [1.0, 3.0, 2.0]];
+            let dense2: A<f64, 2> = [[2.0, -1.0], [3.0, 5.0]];
+            fn sc<const N: usize>(m: &A<f64, N>, k: f64) -> A<f64, N> { let mut o = *m; for r in o.iter_mut() { for e in r.iter_mut() { *e *= k; } } o }
+            fn id<const N: usize>() -> A<f64, N> { let mut o = [[0.0; N]; N]; for d in 0..N { o[d][d] = 1.0; } o }
+            let (tiny_s, huge_s) = (2f64.powi(-20), 2f64.powi(30));
+            let mut na4 = dense4; na4[3] = [2f64.powi(-30), 0.0, -(2f64.powi(-35)), 1.0];
+            let mut nb4 = dense4; nb4[3] = [0.0, 0.0, 0.0, n1];
+            let mut ht4 = dense4; ht4[3] = [0.0, 0.0, 0.0, 1.0]; ht4[0][3] = 3.0 * hg; ht4[1][3] = -hg; ht4[2][3] = 0.25 * hg;
+            let mut na3 = dense3; na3[2] = [2f64.powi(-30), -(2f64.powi(-35)), 1.0];
+            let mut nb3 = dense3; nb3[2] = [0.0, 0.0, n1];
+            let mut ht3 = dense3; ht3[2] = [0.0, 0.0, 1.0]; ht3[0][2] = 3.0 * hg; ht3[1][2] = -hg;
+            let two = if s.thorough() { 2 } else { 1 };
+            let starts4: Vec<(&'static str, A<f64, 4>, usize)> = vec![("identity-start", id::<4>(), 2), ("dense-projective-start", dense4, 2), ("rescaled-start", sc(&dense4, tiny_s), two), ("rescaled-start", sc(&dense4, huge_s), two),
+                ("nearly-affine-start", na4, two), ("nearly-affine-start", nb4, two), ("huge-translation-start", ht4, two), ("singular-start", sing4, two)];
+            let starts3: Vec<(&'static str, A<f64, 3>, usize)> = vec![("identity-start", id::<3>(), 2), ("dense-projective-start", dense3, 2), ("rescaled-start", sc(&dense3, tiny_s), two), ("rescaled-start", sc(&dense3, huge_s), two),
+                ("nearly-affine-start", na3, two), ("nearly-affine-start", nb3, two), ("huge-translation-start", ht3, two), ("singular-start", sing3, two)];
+            let starts2: Vec<(&'static str, A<f64, 2>, usize)> = vec![("identity-start", id::<2>(), 2), ("dense-projective-start", dense2, 2), ("rescaled-start", sc(&dense2, tiny_s), two), ("rescaled-start", sc(&dense2, huge_s), two),
+                ("nearly-affine-start", [[n1, ty], [-ty, n1m]], two), ("singular-start", [[1.0, 2.0], [-2.0, -4.0]], two)];
+            let (pt, ph) = (2f64.powi(-30), 2f64.powi(20));
+            let probes4 = [[0.0, 0.0, 0.0, 7.0], [1.0, 0.0, 0.0, 0.0], [0.0, 1.0, 0.0, -1.0], [0.0, 0.0, 1.0, 1.0], [2.0, -3.0, 5.0, 7.0], [0.5, 7.0, -1.0, -0.75], [pt, -3.0 * pt, 5.0 * pt, 1.0], [ph, 3.0 * ph, -ph, 0.0], [1.0, pt, -ph, 3.0]];
+            let probes3 = [[0.0, 0.0, 7.0], [1.0, 0.0, 0.0], [0.0, 1.0, -1.0], [2.0, -3.0, 5.0], [0.5, 7.0, -0.75], [pt, -3.0 * pt, 1.0], [ph, 3.0 * ph, 0.0], [pt, -ph, 3.0]];
+            let probes2 = [[0.0, 0.0], [1.0, 0.0], [0.0, 1.0], [2.0, -3.0], [0.5, 7.0], [pt, -3.0 * pt], [ph, 3.0 * ph], [pt, -ph]];
+            let mut cnt = [0u64; 3];
+            macro_rules! go { ($N:expr, $Mat:ident, $starts:expr, $ops:expr, $probes:expr, $real:ident, $helper:ident, $name:expr, $L:ident, $lay:literal) => {{
+                for (cls, st, len) in $starts.iter() {
+                    s.class(cls); if *len >= 2 { s.class("call-sequences"); }
+                    let g = FGen::<$L::$Mat<$F>, $N> { ty: format!("{}<{}>", $name, $lay), fname: <$F as Fl>::NAME, p, ops: &$ops, probes: &$probes, start_name: cls, start: *st, win: fwindow(p),
+                        real: &$real!($F, $L), helper: &$helper!($F, $L), dec: &|m: &$L::$Mat<$F>| widen::<$F, $N>(&m.decode()) };
+                    fgen_dfs(s, &g, *len, <$L::$Mat<$F> as MatIO<$F, $N>>::build(&narrow::<$F, $N>(st)), &mut Vec::new(), &mut cnt);
+                }
+            }} }
+            go!(4, Mat4, starts4, ops4, probes4, freal4, fhelper4, "Mat4", rm, "row"); go!(4, Mat4, starts4, ops4, probes4, freal4, fhelper4, "Mat4", cm, "col");
+            go!(3, Mat3, starts3, ops3, probes3, freal3, fhelper3, "Mat3", rm, "row"); go!(3, Mat3, starts3, ops3, probes3, freal3, fhelper3, "Mat3", cm, "col");
+            go!(2, Mat2, starts2, ops2, probes2, freal2, fhelper2, "Mat2", rm, "row"); go!(2, Mat2, starts2, ops2, probes2, freal2, fhelper2, "Mat2", cm, "col");
+            let mut t = cnt_tot.lock().unwrap(); for k in 0..3 { t[k] += cnt[k]; }
+        }} }
+        rayon::scope(|sc| { sc.spawn(|_| runf!(f32)); sc.spawn(|_| runf!(f64)); });
+        let c = *cnt_tot.lock().unwrap();
+        s.evals(c[0] + c[2], c[0] + c[2]);
+        s.meta("float_oracle", json!({"entries_checked_against_the_exact_value": c[0], "entries_outside_the_magnitude_policy_window(not asserted)": c[1], "transitions": c[2]}));
+        if c[1] * 4 > c[0] { s.rep.machinery_error(format!("float section: {} of {} entries fell outside the magnitude policy window", c[1], c[0] + c[1])); }
+        s.sample(json!({"type": "f64", "start": "identity", "call": "rotated_z(2^-60)", "law": "entry [1][0] = sin(2^-60) * 1 within gamma_4 * 2^-60 - returning self for a 'negligible' angle is visible"}));
+        s.sample(json!({"type": "f32", "start": "dense, last row (2^-30, 0, -2^-35, 1)", "call": "translated_3d((3*2^40, -2^40, 2^41))", "law": "entry [0][0] = 2 + 3*2^40*2^-30 = 3074 exactly"}));
+    });
+
+    rep.section("floats: Mat4::from(Transform) on f32 and f64 with nearly-identity, half-turn and general unit quaternions",
+        "f32 and f64 x both layouts: orientations {identity, -identity, (0,0,2^-30,1), (2^-30,-2^-31,2^-32,1), (0,0,2^-30,-1) [w rounds to +-1 although the rotation is not the identity], the three half turns (w = 0, one non-zero lane), (1/2,1/2,1/2,1/2), (.36,.48,.64,.48), (.6,0,0,.8), (0,.8,0,-.6), (0,0,r,r) with r = sqrt(1/2)} x positions {0, (1,-2,3), tiny 2^-60, huge 2^30} x uniform scales {1, 2, -1, 1+8u, 2^-20, 2^20} and - for the identity, -identity and half-turn orientations, where rotating and scaling commute - non-uniform scales {(2,1/2,-3), (2^-20,1,2^20)}: last row is exactly (0,0,0,1), the last column is the position, and every entry [i][j] of the 3x3 block lies within gamma_8 * |scale_j| * sum|terms| of the EXACT value of scale_j * R_ij, R = the rotation p -> p + 2w(u x p) + 2u x (u x p) of the quaternion evaluated exactly on the floats (at most 8 roundings per term in any usual evaluation order); non-trivial: non-identity orientation", true, false, |s| {
+        s.require_classes(&["nearly-identity-quaternion", "half-turn", "general-quaternion", "tiny-position", "huge-position", "tiny-scale", "nearly-unit-scale"]);
+        let mut skipped = 0u64;
+        macro_rules! ftr { ($F:ty, $L:ident, $lay:literal) => {{
+            let p = <$F as Fl>::P; let win = fwindow(p); let f = |v: f64| v as $F;
+            let e8 = 2f64.powi(3 - p as i32);
+            let (a, b, c) = (2f64.powi(-30), 2f64.powi(-31), 2f64.powi(-32));
+            let r = (std::f64::consts::FRAC_1_SQRT_2 as $F) as f64;
+            let nar = |v: f64| ((v as $F) as f64);
+            let quats: Vec<(&'static str, [f64; 4], bool)> = vec![("identity", [0.0, 0.0, 0.0, 1.0], true), ("identity", [0.0, 0.0, 0.0, -1.0], true),
+                ("nearly-identity-quaternion", [0.0, 0.0, a, 1.0], false), ("nearly-identity-quaternion", [a, -b, c, 1.0], false), ("nearly-identity-quaternion", [0.0, 0.0, a, -1.0], false),
+                ("half-turn", [1.0, 0.0, 0.0, 0.0], true), ("half-turn", [0.0, 1.0, 0.0, 0.0], true), ("half-turn", [0.0, 0.0, 1.0, 0.0], true),
+                ("general-quaternion", [0.5, 0.5, 0.5, 0.5], false), ("general-quaternion", [nar(0.36), nar(0.48), nar(0.64), nar(0.48)], false), ("general-quaternion", [nar(0.6), 0.0, 0.0, nar(0.8)], false),
+                ("general-quaternion", [0.0, nar(0.8), 0.0, nar(-0.6)], false), ("general-quaternion", [0.0, 0.0, r, r], false)];
+            let (ty, hg) = (2f64.powi(-60), 2f64.powi(30));
+            let positions = [[0.0, 0.0, 0.0], [1.0, -2.0, 3.0], [ty, -3.0 * ty, 5.0 * ty], [hg, -hg, 3.0 * hg]];
+            let uni = [1.0, 2.0, -1.0, 1.0 + e8, 2f64.powi(-20), 2f64.powi(20)];
+            let mut scales: Vec<([f64; 3], bool)> = uni.iter().map(|k| ([*k; 3], true)).collect();
+            scales.push(([2.0, 0.5, -3.0], false)); scales.push(([2f64.powi(-20), 1.0, 2f64.powi(20)], false));
+            for (qc, q, commutes) in &quats { let rt = quat_terms(q); for (pi, pos) in positions.iter().enumerate() { for (si, (sc, uniform)) in scales.iter().enumerate() {
+                if !*uniform && !*commutes { continue; }
+                s.class(qc); s.eval(*qc != "identity");
+                if pi == 2 { s.class("tiny-position"); } if pi == 3 { s.class("huge-position"); } if si == 4 { s.class("tiny-scale"); } if si == 3 { s.class("nearly-unit-scale"); }
+                let t = Transform { position: Vec3 { x: f(pos[0]), y: f(pos[1]), z: f(pos[2]) }, orientation: Quaternion { x: f(q[0]), y: f(q[1]), z: f(q[2]), w: f(q[3]) }, scale: Vec3 { x: f(sc[0]), y: f(sc[1]), z: f(sc[2]) } };
+                let site = format!("Mat4<{}>::from(Transform)<{}>", $lay, <$F as Fl>::NAME);
+                let inp = || json!({"position": jd(pos), "orientation(x,y,z,w)": jd(q), "scale": jd(sc)});
+                let Some(m) = s.call(&site, inp, || widen::<$F, 4>(&$L::Mat4::<$F>::from(t).decode())) else { continue };
+                let wgt = (pi + si) as u64;
+                if (0..4).any(|j| m[3][j].to_bits() != [0.0f64, 0.0, 0.0, 1.0][j].to_bits() && !(j < 3 && m[3][j] == 0.0)) { s.violation_w(&site, "last-row-is-not-(0,0,0,1)", json!({"input": inp(), "got": jd(&m)}), wgt); continue; }
+                'e: for i in 0..3 {
+                    match terms_ok([bprod(&[pos[i]])].into_iter(), m[i][3], 1, p, &win) { Some(false) => { s.violation_w(&site, "last-column-is-not-the-position", json!({"input": inp(), "got": jd(&m)}), wgt); break 'e; } None => skipped += 1, _ => {} }
+                    for j in 0..3 {
+                        let terms = rt[i][j].iter().map(|tm| { let mut v = tm.clone(); v.push(sc[j]); bprod(&v) });
+                        match terms_ok(terms, m[i][j], 8, p, &win) { Some(false) => { s.violation_w(&site, "not-position+orientation*(scale.p) (beyond the forward error bound)", json!({"input": inp(), "entry": [i, j], "got": jd(&m)}), wgt); break 'e; } None => skipped += 1, _ => {} }
+                    }
+                }
+            } } }
+        }} }
+        ftr!(f32, rm, "row"); ftr!(f32, cm, "col"); ftr!(f64, rm, "row"); ftr!(f64, cm, "col");
+        s.meta("entries_outside_the_magnitude_policy_window(not asserted)", json!(skipped));
+        s.sample(json!({"type": "f64", "orientation(x,y,z,w)": [0, 0, "2^-30", 1], "scale": [2, 2, 2], "law": "entry [1][0] = 2 * (2xy + 2zw) = 2^-28 exactly; w == 1 does not mean the rotation is the identity"}));
     });
 
     std::process::exit(rep.finish_with(lk));
